@@ -124,6 +124,36 @@ def c_range_table(ctx):
                 src = var(r)
             if src in role_of_var and role_of_var[src] != "mask":
                 role_of_var[name] = role_of_var[src]
+    # a scratch local that is re-used for several operands (`bound = low's
+    # double; ...; bound = high's double`): its role at a use is that of the
+    # textually last assignment before the use (the function has no loops)
+    multi_roles = {}
+    for x in fn_ast.walk():
+        name = rhs = None
+        if x.kind == "VarDecl" and x.ch:
+            name, rhs = x.name, x.ch[-1]
+        elif x.kind == "BinaryOperator" and x.op == "=" \
+                and var(x.ch[0]) is not None:
+            name, rhs = var(x.ch[0]), x.ch[1]
+        if name is None:
+            continue
+        r = strip(rhs)
+        src = None
+        if r.kind == "CallExpr" and callee(r) in ("PyFloat_AS_DOUBLE",
+                                                  "PyFloat_AsDouble"):
+            src = var(r.ch[1])
+        elif r.kind == "MemberExpr" and r.name == "ob_fval":
+            src = var(r.ch[0])
+        elif var(r) is not None:
+            src = var(r)
+        if src in role_of_var and role_of_var[src] in ("low", "high", "value"):
+            multi_roles.setdefault(name, []).append(
+                (x.line or 0, role_of_var[src]))
+    multi_roles = {k: sorted(v) for k, v in multi_roles.items()
+                   if len({r for _, r in v}) > 1}
+    if any(g.has_back_edge() for _ in [0]) if hasattr(g, "has_back_edge") \
+            else False:
+        multi_roles = {}
     # locals assigned exactly once (flags computed from the mask, ...)
     _defs = {}
     for x in fn_ast.walk():
@@ -155,6 +185,13 @@ def c_range_table(ctx):
         elif e.kind == "MemberExpr" and e.name == "ob_fval":
             e = strip(e.ch[0])
         v = var(e)
+        if v in multi_roles:
+            line = e.line or 0
+            cur = None
+            for ln, role in multi_roles[v]:
+                if ln <= line:
+                    cur = role
+            return cur
         return role_of_var.get(v)
 
     def interp_for(val):
